@@ -291,7 +291,10 @@ func (w *scribbleWorld) Exec(p *Plan, st *RunStats) *Violation {
 				}
 				checkSnaps("the caller's writes to a slice returned later (or an earlier operation)") // two returned slices never share memory
 			case "ScribbleSnap":
-				for _, sn := range snaps {
+				for i, sn := range snaps {
+					if op.ID%3 == 0 && (i+op.ID/3)%2 == 0 {
+						continue // (one time in three only every other slice is written to: the others must not move)
+					}
 					if !sn.scribbled {
 						if sn.slice.Len() > 0 || sn.slice.Cap() > 0 {
 							scribbles++
@@ -303,6 +306,7 @@ func (w *scribbleWorld) Exec(p *Plan, st *RunStats) *Violation {
 				if op.ID%2 == 0 { // (every other time nothing is observed before the next operation)
 					same("writing to slices returned by Values()/Keys()")
 				}
+				checkSnaps("the caller's writes to (and appends within the capacity of) another returned slice")
 			case "CheckSnap":
 				checkSnaps("later container operations")
 			case "Sorted":
@@ -403,4 +407,22 @@ func typedSortedProbe(o *Oracle, opID int) {
 	sortedTyped(o, "int8", i8)
 	sortedTyped(o, "uint16", u16)
 	sortedTyped(o, "named string", tg)
+	// the exact built-in types a fast path would be written for: bytes up to the type's maximum, words that differ
+	// first at byte 8, 9 or 16 (after a machine word or two of common prefix), ints at both ends of their range
+	m := 2 + derive(opID, 6, 9)
+	u8 := make([]uint8, m)
+	st := make([]string, m)
+	in := make([]int, m)
+	u64 := make([]uint64, m)
+	for i := 0; i < m; i++ {
+		x := derive(opID, 200+i, 10)
+		u8[i] = []uint8{255, 0, 254, 1, 128, 127, 255, 7, 200, 0}[x]
+		st[i] = []string{"invoice-3", "invoice-1", "invoice-", "invoice-10", "order-0000000016b", "order-0000000016a", "invoice", "order-000000001", "invoice-2x", ""}[x]
+		in[i] = []int{math.MaxInt, math.MinInt, 0, -1, 1, math.MaxInt - 1, math.MinInt + 1, 1 << 32, -(1 << 32), 7}[x]
+		u64[i] = []uint64{math.MaxUint64, 0, 1 << 63, 1<<63 - 1, 1<<63 + 1, 1, 1 << 32, 255, 256, math.MaxUint64 - 1}[x]
+	}
+	sortedTyped(o, "uint8", u8)
+	sortedTyped(o, "string", st)
+	sortedTyped(o, "int", in)
+	sortedTyped(o, "uint64", u64)
 }
